@@ -1,10 +1,12 @@
 package kv
 
 import (
+	"bytes"
 	"context"
 	"encoding/json"
 	"fmt"
 	"sort"
+	"strings"
 	"time"
 
 	"verifharness/internal/rng"
@@ -47,12 +49,13 @@ type Sim struct {
 	curPre  string
 	collIDs map[[2]int]uint32
 	dumpN   int
+	liveEv  map[DocKey]Ev // newest live event per key, as delivered to a value-carrying feed
 	viewN   int
 	// OnIntent / OnAck let the crash engine stream every operation before it is invoked and after it returned.
 	OnIntent func(op *Op)
 	OnAck    func(st *Step, doc *Doc)
-	views   map[[2]int]*viewState
-	freshN  int
+	views    map[[2]int]*viewState
+	freshN   int
 }
 
 func NewSim(ctx *sup.Ctx, r *rng.R, cfg Config, opt SimOptions) (*Sim, error) {
@@ -317,6 +320,12 @@ func (s *Sim) judgeLive(st *Step, dk DocKey, changed bool, nd *Doc) {
 			n++
 			if n > wantN {
 				continue
+			}
+			if !f.KeysOnly {
+				if s.liveEv == nil {
+					s.liveEv = map[DocKey]Ev{}
+				}
+				s.liveEv[dk] = *e
 			}
 			wj := &nd.JSON
 			if st.Ex.DCJSON || st.Ex.Accept == -1 {
@@ -671,6 +680,34 @@ func (s *Sim) JudgeDump(b, c int, startCas uint64, why string) {
 		wj := &d.JSON
 		s.curPreOverride(d.Class())
 		CompareEvent("backfill", "C09", e, &o, wj, s.collIDs[[2]int{b, c}], keysOnly, s.reportDump(dk), fmt.Sprintf("backfill(%s) of %s, last mutated by %s", why, dk, orDash(s.LastMut[dk])))
+		if le, ok := s.liveEv[dk]; ok && !keysOnly && le.Cas == e.Cas && le.Rev == e.Rev {
+			// the same version (a bare touch keeps the CAS but raises the revision number) as a live event and as a
+			// backfill event: the two descriptions must agree (C09)
+			s.Ctx.Count("backfill_events_compared_with_live_event", 1)
+			lv, lerr := decodeEv(&le)
+			bv, berr := decodeEv(e)
+			var diff []string
+			if lerr == nil && berr == nil {
+				if lv.Deletion != bv.Deletion {
+					diff = append(diff, fmt.Sprintf("opcode deletion live=%v backfill=%v", lv.Deletion, bv.Deletion))
+				}
+				if !bytes.Equal(lv.Body, bv.Body) {
+					diff = append(diff, fmt.Sprintf("body live=%q backfill=%q", trunc(lv.Body), trunc(bv.Body)))
+				}
+				if !mapEq(lv.X, bv.X) {
+					diff = append(diff, fmt.Sprintf("xattrs live=%v backfill=%v", lv.X, bv.X))
+				}
+				if lv.JSON != bv.JSON {
+					diff = append(diff, fmt.Sprintf("datatype JSON live=%v backfill=%v", lv.JSON, bv.JSON))
+				}
+			}
+			if le.Exp != e.Exp {
+				diff = append(diff, fmt.Sprintf("expiry live=%d backfill=%d", le.Exp, e.Exp))
+			}
+			if len(diff) > 0 {
+				s.reportDump(dk)([]string{"C09"}, "backfill.vs-live", fmt.Sprintf("backfill(%s) of %s (CAS %d, last mutated by %s) describes the version differently from the live event it produced: %s", why, dk, e.Cas, orDash(s.LastMut[dk]), strings.Join(diff, "; ")))
+			}
+		}
 	}
 	for _, w := range wants {
 		n := seen[w.k.K]
